@@ -926,17 +926,40 @@ func ElementTypeKept(p *load.Prog, r *oblig.Report, rule string) {
 			// a load of the field itself (append to the field): the stores to it are traced separately
 		}
 	}
-	for _, b := range fn.Blocks {
-		for _, in := range b.Instrs {
-			st, ok := in.(*ssa.Store)
-			if !ok {
-				continue
+	// the callback and the helpers of its package it hands the work to (two levels)
+	fset := []*ssa.Function{fn}
+	for lvl := 0; lvl < 2; lvl++ {
+		for _, f := range append([]*ssa.Function{}, fset...) {
+			for _, b := range f.Blocks {
+				for _, in := range b.Instrs {
+					if call, ok := in.(ssa.CallInstruction); ok {
+						if cal := call.Common().StaticCallee(); cal != nil && cal.Pkg == fn.Pkg && len(cal.Blocks) > 0 {
+							dup := false
+							for _, g := range fset {
+								dup = dup || g == cal
+							}
+							if !dup {
+								fset = append(fset, cal)
+							}
+						}
+					}
+				}
 			}
-			fa, ok := st.Addr.(*ssa.FieldAddr)
-			if !ok || fieldNameOf(fa.X.Type(), fa.Field) != "GenericTypes" {
-				continue
+		}
+	}
+	for _, f := range fset {
+		for _, b := range f.Blocks {
+			for _, in := range b.Instrs {
+				st, ok := in.(*ssa.Store)
+				if !ok {
+					continue
+				}
+				fa, ok := st.Addr.(*ssa.FieldAddr)
+				if !ok || fieldNameOf(fa.X.Type(), fa.Field) != "GenericTypes" {
+					continue
+				}
+				trace(st.Val)
 			}
-			trace(st.Val)
 		}
 	}
 	for _, call := range appends {
